@@ -11,6 +11,8 @@ use crate::ops::*;
 
 #[derive(Clone, Copy, Debug, PartialEq, Eq)]
 pub enum Meaning {
+    /// Not predicted (after `\let` to an undefined name): probes of it print nothing.
+    Unknown,
     Undefined,
     Macro(u32),
     CharAlias(char),
@@ -378,7 +380,7 @@ impl Model {
                 }
                 Op::LetCs { g, t, src } => {
                     let m = self.meaning(*src);
-                    if m != Meaning::Undefined {
+                    if m != Meaning::Undefined && m != Meaning::Unknown {
                         text.push_str(&format!(
                             "{}\\let{}={}",
                             Self::pre(*g),
@@ -390,6 +392,13 @@ impl Model {
                         reach.push("let_copy");
                         self.set_meaning(glob, *t, m);
                     }
+                }
+                Op::LetUndefined { g, t } => {
+                    text.push_str(&format!("{}\\let{}=\\nzundefined ", Self::pre(*g), t.tex()));
+                    let glob = self.global(*g, false);
+                    self.note_assign(glob, &mut reach);
+                    reach.push("let_to_undefined_name");
+                    self.set_meaning(glob, *t, Meaning::Unknown);
                 }
                 Op::LetChar { g, t, c } => {
                     text.push_str(&format!("{}\\let{}={}", Self::pre(*g), t.tex(), c));
@@ -463,6 +472,7 @@ impl Model {
                     out.push_str(&format!("{};", self.cat(*ch)));
                 }
                 Op::Probe { t } => match self.meaning(*t) {
+                    Meaning::Unknown => {}
                     Meaning::Undefined => {
                         text.push_str(&t.tex_use());
                         err = Some(ERR_UNDEFINED);
